@@ -83,31 +83,27 @@ func C19EpochOut() {
 // For MILLISECOND the epoch is built as n = 1000*s + m (0 <= m < 1000), so the expected
 // instant (s seconds, m milliseconds) is known without the solver having to divide.
 func C19EpochIn() {
-	// MILLISECOND inverse: only explored when asked (param MSIN=1): the sat direction is found
-	// in well under a second on the unfixed arithmetic (F7), but the unsat direction does not
-	// finish (64-bit division by constants under bit-blasting; z3 5.1, z3 4.8.12 and cvc5 with
-	// --solve-bv-as-int=sum unknown at 60 s even on 8-bit slices), so no bound is registered.
-	ms := zz.Param("MSIN", 0) == 1 && zz.NondetBool("millis")
+	// MILLISECOND: the epoch is built from its magnitude, n = ±(1000*k + m) with 0 <= m < 1000,
+	// so the expected instant is known without the solver having to divide: for n >= 0 it is
+	// (k s, m ms); for n < 0 it is (-k s) if m = 0 and (-(k+1) s, (1000-m) ms) otherwise. The
+	// engine folds n/1000 and n%1000 on this shape algebraically (engine/ranges.go), which is
+	// what makes the unsat direction finish over the full range of years 1..9999.
+	ms := zz.NondetBool("millis")
 	unit := epochUnitSeconds
-	var s, m int64
+	var s, nanos int64
 	if ms {
 		unit = epochUnitMilliseconds
-		lo, hi := int64(zzMinSec), int64(zzMaxSec)
-		if zz.Param("nonneg", 0) == 1 {
-			lo = 0
+		m := int64(zz.NondetInt("m", 0, 999))
+		if zz.NondetBool("negative") {
+			k := int64(zz.NondetInt("k", 0, -zzMinSec-1))
+			zzParsed = -(k*1000 + m)
+			s = -k - int64(zz.IteInt(m > 0, 1, 0))
+			nanos = int64(zz.IteInt(m > 0, int(1000-m), 0)) * 1000000
+		} else {
+			k := int64(zz.NondetInt("k", 0, zzMaxSec))
+			zzParsed = k*1000 + m
+			s, nanos = k, m*1000000
 		}
-		// The unsat direction over the full 38-bit range does not finish (64-bit division by a
-		// constant under bit-blasting; z3 and cvc5 unknown at 60 s). The claim is therefore
-		// sliced: s = base + low with low an arbitrary 16-bit offset and base one of the
-		// representative magnitudes below (all powers of two of either sign, the range ends,
-		// and the points where the old n*10^6 arithmetic wrapped).
-		bases := zzBases(lo, hi)
-		base := bases[zz.NondetChoice("base", len(bases))]
-		low := int64(zz.NondetInt("low", 0, 65535))
-		s = base + low
-		zz.Assume(s >= lo && s <= hi)
-		m = int64(zz.NondetInt("m", 0, 999))
-		zzParsed = s*1000 + m
 	} else {
 		zzParsed = int64(zz.NondetInt("n", zzMinSec, zzMaxSec))
 	}
@@ -125,7 +121,7 @@ func C19EpochIn() {
 	if ms {
 		zz.Cover("ms")
 		zz.Assert(zzOutTime.Unix() == s, "MILLISECOND: seconds of the reconstructed instant")
-		zz.Assert(int64(zzOutTime.Nanosecond()) == m*1000000, "MILLISECOND: sub-second part of the reconstructed instant")
+		zz.Assert(int64(zzOutTime.Nanosecond()) == nanos, "MILLISECOND: sub-second part of the reconstructed instant")
 	} else {
 		zz.Cover("s")
 		zz.Assert(zzOutTime.Unix() == zzParsed && zzOutTime.Nanosecond() == 0, "SECOND: the instant with that Unix time")
